@@ -323,8 +323,28 @@ func genPolys(rng *Rng, tier string) []poly {
 		add("onsplit/diamond", "diamond"+tag, []v2.Vec{{X: 1, Y: 0}, {X: 0, Y: 1}, {X: -1, Y: 0}, {X: 0, Y: -1}}, false)
 		add("onsplit/plus", "plus"+tag, []v2.Vec{{X: 1, Y: -3}, {X: 1, Y: -1}, {X: 3, Y: -1}, {X: 3, Y: 1}, {X: 1, Y: 1}, {X: 1, Y: 3}, {X: -1, Y: 3}, {X: -1, Y: 1}, {X: -3, Y: 1}, {X: -3, Y: -1}, {X: -1, Y: -1}, {X: -1, Y: -3}}, true)
 		add("onsplit/octagon0", "octagon0"+tag, ngon(8, func(int) float64 { return 1 }, 0), false)
+		// ---- edges lying exactly ON split lines (ownership of shared box edges): the bounding box is
+		// [-2,2]^2, so the root box is [-2.02,2.02]^2 with centre exactly (0,0) and level 2 lines at +-1.01
+		step := []v2.Vec{{X: -2, Y: -2}, {X: 2, Y: -2}, {X: 2, Y: 0}, {X: 0, Y: 0}, {X: 0, Y: 2}, {X: -2, Y: 2}}
+		for q := 0; q < 4; q++ {
+			add("onsplit/edge-on-centre-line", fmt.Sprintf("step-rot%d%s", 90*q, tag), step, false)
+			step = rot90(step)
+		}
+		u := []v2.Vec{{X: -2, Y: -2}, {X: 2, Y: -2}, {X: 2, Y: 2}, {X: 1.01, Y: 2}, {X: 1.01, Y: -1.01}, {X: -1.01, Y: -1.01}, {X: -1.01, Y: 2}, {X: -2, Y: 2}}
+		for q := 0; q < 4; q++ {
+			add("onsplit/edge-on-level2-line", fmt.Sprintf("u-rot%d%s", 90*q, tag), u, false)
+			u = rot90(u)
+		}
 	}
 	return ps
+}
+
+func rot90(v []v2.Vec) []v2.Vec {
+	out := make([]v2.Vec, len(v))
+	for i, p := range v {
+		out[i] = v2.Vec{X: -p.Y, Y: p.X}
+	}
+	return out
 }
 
 func zigzag(n int, th float64) []v2.Vec {
